@@ -25,6 +25,12 @@ pub fn build_index(code: &str) -> HashMap<String, Vec<u64>> {
     idx
 }
 
+/// Languages in which the conjunction is part of "exactly those words": German and Dutch put the unit BEFORE the tens
+/// and glue them with the conjunction (`fünfundzwanzig`, `vijfentwintig`); a unit followed by a tens word without it is
+/// two numbers there (`fünf zwanzig` = 5 20), and with it one.  In the other five languages the library documents
+/// the conjunction as optional (`twenty and one`, `trente et deux`, `treinta uno`), so its presence is not judged.
+pub const STRICT_CONJUNCTION: [&str; 2] = ["de", "nl"];
+
 fn nclass(a: u64) -> &'static str {
     match a {
         0 => "zero",
@@ -70,8 +76,13 @@ pub fn judge_pair_spelled(ls: &LangSet, idx: &HashMap<String, Vec<u64>>, code: &
     let mut m = spell::morphemes_of_text(code, &pa);
     m.extend(spell::morphemes_of_text(code, &pb));
     if let Some(cs) = idx.get(&m.join("+")) {
-        if cs.iter().any(|c| out == c.to_string()) {
-            return PairVerdict { skipped_annotated: false, failure: None, outcome_class: "single-number-with-exactly-those-words" };
+        if let Some(c) = cs.iter().find(|c| out == c.to_string()) {
+            // same words; is the conjunction said as often as some claimed spelling of c has it?
+            let said = spell::conj_occurrences(code, &text);
+            let exact = spell::cardinal_variants(code, *c).iter().any(|v| spell::conj_occurrences(code, &v.text) == said);
+            if exact || !STRICT_CONJUNCTION.contains(&code) {
+                return PairVerdict { skipped_annotated: false, failure: None, outcome_class: if exact { "single-number-with-exactly-those-words" } else { "single-number-conjunction-tolerated" } };
+            }
         }
     }
     // a spaced spelling (hyphens dropped, split compounds) can be cut differently without any arithmetic: `trente quatre
@@ -277,7 +288,7 @@ pub fn run(ctx: &Ctx) -> Outcome {
         }
     });
     let rule = format!("pairs: every (a,b) in [0,99]^2 x {{space, conjunction}} x 7 languages in the primary spelling (exhaustive, 140 000 cases) and in one rotating combination of the other claimed spellings (thorough: every combination), allowed outcomes = both numbers in order, the zero-prefixed form for a = 0, or the digits of a c < 10000 whose morpheme sequence (any claimed variant, conjunction ignored) equals morphemes(a)+morphemes(b), or (spaced variant spellings only) another cut of the same words into numbers; dictation: every digit string of length <= {} (English also with the zeros dictated as `o`) and random ones of length 5..8, expected = grouping rule of the statement; texts whose ambiguity annotation flags a token are skipped and counted", max_len_exhaustive);
-    finish(ctx, rep, &rule, &["the conjunction is ignored when comparing morpheme sequences (the library documents tolerance for a missing/extra conjunction; the property is about arithmetic fusion)"], vec![("pairs_exhaustive".into(), J::Bool(true))])
+    finish(ctx, rep, &rule, &["outside German and Dutch the conjunction is ignored when comparing word sequences (the library documents it as optional there; the property is about arithmetic fusion); in German and Dutch, where unit + conjunction + tens is one number and unit + tens is two, it must be said as often as a claimed spelling has it"], vec![("pairs_exhaustive".into(), J::Bool(true))])
 }
 
 pub fn replay(case: &J) -> Vec<String> {
